@@ -162,15 +162,17 @@ BOUNDS = {
     ]),
     'thorough': dict(_COMMON, runs=[
         dict(managers=1, ids='all 9', levels=['full'], servers=1, depth=4),
+        dict(managers=1, ids=['m', 'é'], levels=['full'], servers=1, depth=5),
         dict(managers=2, ids='all 72 ordered pairs', levels=['mid', 'small'], servers=1, depth=4),
-        dict(managers=2, ids='6 pairs, one per id-pair class', levels=['mid', 'small'], servers=1,
-             depth=5),
-        dict(managers=2, ids='6 pairs', levels=['full', 'small'], servers=1, depth=3),
+        dict(managers=2, ids='6 pairs, one or two per id-pair class', levels=['mid', 'small'],
+             servers=1, depth=5),
+        dict(managers=2, ids='the same 6 pairs', levels=['full', 'small'], servers=1, depth=3),
         dict(managers=2, ids='4 pairs', levels=['mid', 'small'], servers=2, depth=4),
-        dict(managers=3, ids='4 triples', levels=['mid', 'small', 'small'], servers=2, depth=4),
         dict(managers=3, ids='4 triples', levels=['mid', 'small', 'small'], servers=1, depth=4),
+        dict(managers=3, ids='the same 4 triples', levels=['mid', 'small', 'small'], servers=2, depth=4),
     ]),
 }
+DEEP_SINGLES = ['m', 'é']
 CLASS_PAIRS = [['m', 'é'], ['m', 'm1'], ['m1', 'm'], ['a.c', 'abc'], ['abc', 'a.c'], ['m ', 'a*']]
 TWO_SERVER_PAIRS = [['m', 'm1'], ['a.c', 'abc'], ['abc', 'a.c'], ['é', 'a*']]
 TRIPLES = [['a.c', 'abc', 'm'], ['m', 'm1', 'm '], ['abc', 'a.c', 'a*'], ['é', 'm', '(x']]
@@ -990,19 +992,21 @@ def _runs(tier):
                     out.append(([a, b], ['mid', 'small'], 1, 3, False))
     else:
         for a in IDS:
-            out.append(([a], ['full'], 1, 4, True))
+            out.append(([a], ['full'], 1, 4, False))
+        for a in DEEP_SINGLES:
+            out.append(([a], ['full'], 1, 5, True))
         for a in IDS:
             for b in IDS:
                 if a != b:
                     out.append(([a, b], ['mid', 'small'], 1, 4, False))
         for p in CLASS_PAIRS:
-            out.append((p, ['mid', 'small'], 1, 5, True))
-            out.append((p, ['full', 'small'], 1, 3, True))
+            out.append((p, ['mid', 'small'], 1, 5, False))
+            out.append((p, ['full', 'small'], 1, 3, False))
         for p in TWO_SERVER_PAIRS:
-            out.append((p, ['mid', 'small'], 2, 4, True))
+            out.append((p, ['mid', 'small'], 2, 4, False))
         for t in TRIPLES:
-            out.append((t, ['mid', 'small', 'small'], 2, 4, True))
-            out.append((t, ['mid', 'small', 'small'], 1, 4, True))
+            out.append((t, ['mid', 'small', 'small'], 1, 4, False))
+            out.append((t, ['mid', 'small', 'small'], 2, 4, False))
     return out
 
 
